@@ -34,7 +34,7 @@ GoodClass(ty) ==
     [] ty = "list[str]" -> {"list_str"} [] ty = "jwk" -> {"obj_ok"}
 
 \* modes: the algorithm used by the case (one representative per family of algorithm-specific parameters)
-Modes == {"jws", "jws7797", "kw", "gcmkw", "ecdh", "pbes2"}
+Modes == {"jws", "jws7797", "kw", "gcmkw", "ecdh", "pbes2", "1pu"}
 SideOf(m) == IF m \in {"jws", "jws7797"} THEN "jws" ELSE "jwe"
 SersOf(m) == CASE m = "jws" -> {"compact", "flattened", "general"} [] m = "jws7797" -> {"compact", "flattened"}
                [] OTHER -> {"compact", "flattened", "general"}
